@@ -178,6 +178,27 @@ def rfc_judge(ctx, stream):
 FAIL_CODE = {"protocol": 1002, "payload": 1007, "toobig": 1009}
 
 
+CODEC_ERROR_KEY = "pmc/invalid-compressed-data/codec-error-escapes-dataReceived"
+CODEC_ERROR_WHAT = ("permessage-deflate: a data frame flagged compressed whose payload the inflater rejects raises zlib.error out of "
+                    "dataReceived instead of failing the connection (1007/1002); the connection stays OPEN, the framework then drops "
+                    "it uncleanly")
+
+
+def codec_error_escaped(case, result):
+    """compression negotiated and the REAL decompressor raised out of the receive loop (["escaped", "error"] = zlib.error)"""
+    return bool(case.get("pmc")) and any(e[0] == "escaped" and e[1] == "error" for e in result["events"])
+
+
+def codec_rejected(case, result):
+    """the real codec raised AND the stream really carries invalid compressed data (the oracle's inflater rejects it as
+    well): such a run has no model answer (the decompressor is an oracle of the model) and no meaningful segmentation twin"""
+    if not codec_error_escaped(case, result):
+        return False
+    ctx = dict(server=case["role"] == "server", mask_opt=case["mask_opt"], apply_mask=case["apply_mask"], pmc=case["pmc"],
+               utf8=case["utf8"], max_frame=case["max_frame"], max_msg=case["max_msg"], pmc_max=case.get("pmc_max"))
+    return rfc_judge(ctx, b"".join(bytes.fromhex(c) for c in case["chunks"]))[1] == ("fail", "zlib")
+
+
 def check_against_rfc(case, result):
     """Independent verdict on one implementation run.  Returns a list of (key, what) problems (empty = conforms).
     Only facts the property names are judged: deliveries of the well-formed prefix, pong echo, failure policy
@@ -188,7 +209,10 @@ def check_against_rfc(case, result):
     dels, verdict, off = rfc_judge(ctx, stream)
     after_close = verdict[0] == "close" and off < len(stream)      # octets follow the peer's Close frame
     if verdict == ("fail", "zlib"):
-        return []          # not a deflate stream: outside this oracle
+        # a frame flagged "compressed" whose payload is not deflate data (the oracle's own inflater rejects it too)
+        if codec_error_escaped(case, result):
+            return [(CODEC_ERROR_KEY, CODEC_ERROR_WHAT)]
+        return []          # otherwise outside this oracle
     ev = result["events"]
     role = case["role"]
     probs = []
